@@ -401,6 +401,11 @@ func c03CheckOne(c *core.Ctx, idx int, pattern string, enumerated bool) {
 	text := pattern + "$domain=example.org"
 	if matchCase {
 		text = pattern + "$match-case,domain=example.org"
+	} else if c.Rng.Intn(4) == 0 {
+		// The default written out: $~match-case is the case-insensitive
+		// comparison of the documented syntax.
+		text = pattern + []string{"$~match-case,domain=example.org", "$domain=example.org,~match-case"}[c.Rng.Intn(2)]
+		c.Event("rules_with_the_negated_match_case_modifier", 1)
 	}
 	// A pattern of three characters or more may also stand alone, without any
 	// modifier; a '$' at the very end of such a text has nothing after it to
